@@ -76,15 +76,29 @@ def delta_of(prog, fn, summaries, s):
 
 
 def expr_delta(prog, summaries, e):
+    """(dV, dF) of evaluating expression e: the calls it makes, with the two arms of a conditional expression counted once (they
+    must agree, like the two branches of an if)."""
+    from ..model import children
     tot = (0, 0)
     if not isinstance(e, dict):
         return tot
-    for n in walk(e, into_lambdas=False):
-        if is_call(n):
-            c = n.get("callee", "")
-            d = DELTA.get(c) or summaries.get(c)
-            if d:
-                tot = (tot[0] + d[0], tot[1] + d[1])
+    if e.get("k") == "LambdaExpr":
+        return tot
+    if e.get("k") == "ConditionalOperator" and len(e.get("c", [])) == 3:
+        c0 = expr_delta(prog, summaries, e["c"][0])
+        a, b = expr_delta(prog, summaries, e["c"][1]), expr_delta(prog, summaries, e["c"][2])
+        if a != b:
+            raise Inconsistent(e, "the two arms of the conditional expression at line %s change the mesh differently: (dV,dF) = %s vs %s" % (e.get("l"), a, b))
+        return (c0[0] + a[0], c0[1] + a[1])
+    if is_call(e):
+        c = e.get("callee", "")
+        d = DELTA.get(c) or summaries.get(c)
+        if d:
+            tot = d
+    for ch in children(e):
+        if isinstance(ch, dict):
+            d = expr_delta(prog, summaries, ch)
+            tot = (tot[0] + d[0], tot[1] + d[1])
     return tot
 
 
@@ -316,14 +330,55 @@ def rebase(rep, prog):
                     if "cell::generate_edge_set" in calls and any(x and x.endswith("::clear") for x in calls):
                         regen = s
         ok = uses_both and before and sem and regen is not None and fi.enclosing(regen, ("IfStmt", "ForStmt")) is None
+    if not ok:
+        # structural form: every path that compacts something (remove_index) goes on through edge_set_.clear() + generate_edge_set()
+        cfg = fi.cfg()
+        rms = [n for n in walk(fn["body"]) if n.get("k") == "CallExpr" and n.get("callee") == "remove_index"]
+        gens = [n for n in walk(fn["body"]) if is_call(n) and n.get("callee") == "cell::generate_edge_set"]
+        clears = [n for n in walk(fn["body"]) if n.get("k") == "CXXMemberCallExpr" and n.get("callee", "").endswith("::clear") and render(call_obj(n)).endswith("edge_set_")]
+        gen_units = {cfg.unit_of.get(id(g)) for g in gens} - {None}
+        must = bool(rms) and bool(gens) and bool(clears) and all(fi.order[id(c_)] < fi.order[id(g)] for c_ in clears[:1] for g in gens[:1])
+        for r_ in rms:
+            u = cfg.unit_of.get(id(r_))
+            seen, stack = set(), list(cfg.succ[u]) if u is not None else []
+            while stack and must:
+                x = stack.pop()
+                if x in seen or x in gen_units:
+                    continue
+                seen.add(x)
+                if x == cfg.exit:
+                    must = False
+                    break
+                stack.extend(cfg.succ[x])
+        if must:
+            ok = True
+            flag = [gens[0]]
     if ok:
-        rep.ok("C01.rebase", prog, fn, flag[0], "the 'regenerate' decision is taken from both free queues before they are cleared; the edge set is cleared and regenerated when set")
+        rep.ok("C01.rebase", prog, fn, flag[0], "the edge set is cleared and regenerated on every path on which a slot was removed (decision taken from both free queues before they are cleared, or unconditional after an early return for 'nothing to compact')")
     else:
         rep.violation("C01.rebase", prog, fn, flag[0] if flag else None, "rebase does not regenerate the edge set after every compaction", "cell::rebase must decide (before clearing the queues) that the edge set is stale whenever the face queue or the node queue is non-empty, and then clear and regenerate it: otherwise the edges keep the ids of before the compaction")
     # renumbering loops
     for lst, setter in (("face_lst_", "face::set_local_id"), ("node_lst_", "node::set_local_id")):
         good = False
         for l in walk(fn["body"]):
+            # range-for over the list with a running counter: counter = 0 before, set_local_id(counter) then counter++ in the body
+            if l.get("k") == "CXXForRangeStmt" and render(l["range"]).replace("this->", "").split("#")[0] == lst and l["var"].get("t", "").rstrip().endswith("&"):
+                body = l["body"].get("c", []) if l["body"].get("k") == "CompoundStmt" else [l["body"]]
+                for bi, st_ in enumerate(body):
+                    x = strip(st_)
+                    if is_call(x) and x.get("callee") == setter and strip(call_obj(x)).get("k") == "DeclRefExpr" and strip(call_obj(x))["ref"].get("did") == l["var"]["did"]:
+                        a = strip(call_args(x)[0])
+                        if a.get("k") != "DeclRefExpr":
+                            continue
+                        cd = a["ref"]["did"]
+                        incs = [j for j, s2 in enumerate(body) if strip(s2).get("k") == "UnaryOperator" and "++" in strip(s2).get("op", "") and strip(strip(s2)["c"][0]).get("k") == "DeclRefExpr" and strip(strip(s2)["c"][0])["ref"].get("did") == cd]
+                        other_w = [w for w in walk(l["body"]) if w.get("k") in ("BinaryOperator", "CompoundAssignOperator") and (w.get("op") == "=" or w.get("k") == "CompoundAssignOperator") and strip(w["c"][0]).get("k") == "DeclRefExpr" and strip(w["c"][0])["ref"].get("did") == cd]
+                        decl = [v for v in walk(fn["body"]) if v.get("k") == "Var" and v.get("did") == cd and isinstance(v.get("init"), dict)]
+                        zero = bool(decl) and strip(decl[0]["init"]).get("k") == "IntegerLiteral" and strip(decl[0]["init"]).get("v") == "0"
+                        between = [w for w in walk(fn["body"]) if decl and fi.order[id(decl[0])] < fi.order.get(id(w), -1) < fi.order[id(l)] and w.get("k") in ("UnaryOperator", "CompoundAssignOperator", "BinaryOperator") and any(y.get("k") == "DeclRefExpr" and y["ref"].get("did") == cd for y in walk(w)) and (w.get("op") in ("=", "+=", "-=") or "++" in w.get("op", "") or "--" in w.get("op", ""))]
+                        rm = [n for n in walk(fn["body"]) if n.get("k") == "CallExpr" and n.get("callee") == "remove_index" and lst in render(call_args(n)[0])]
+                        if len(incs) == 1 and incs[0] > bi and not other_w and zero and not between and rm and fi.order[id(l)] > fi.order[id(rm[0])]:
+                            good = True
             if l.get("k") == "ForStmt" and lst in render(l["cond"]):
                 for x in walk(l["body"]):
                     if is_call(x) and x.get("callee") == setter:
